@@ -41,9 +41,13 @@ P = {
  "C14": ("proof", "Theorem for all 1440 x 1440 pairs: duration = H:MM:SS of (end - start) mod 24 h; per run 13 000 pairs (thorough: all 2 073 600) on the real code.", "5 C14", ""),
  "C15": ("proof", "Theorems for every IR set and every request: the remote built from the set has exactly the capabilities present in it (C15_capabilities: modes in first-appearance order, min/max over two-digit keys, toggle, separate swing); build_command returns the code and length field the declarative Spec names - most specific stored key among exact / without swing / without fan level after clamping, 'off' for non-toggle remotes, 'on_' only when a toggle remote changes power state, RuntimeError for an unsupported mode (C15_build_command); loop lemma and LE16 length lemma. Each run: generated IR sets x requests on shared remote objects, built by the real remote (directly and through the remote manager) and compared with model and Spec.", "5 C15 / 12.2",
          'dict / re.match / str.isdigit semantics of the capability scan are modelled (ASCII keys); where none of the three keys is stored the property is silent'),
- "C16": ("proof", "Theorems for every reply script: nothing actionable and empty login reply raise RuntimeError after the login frame only; "
-         "set_message_length writes the final length; per run 1000+ (current state, request subset, remote kind, update flag, fault) cases "
-         "against the real client, expected frames composed from the Spec layouts and the Spec's IR choice.", "5 C16", "partial: merge-and-frames is checked per run by the oracle"),
+ "C16": ("proof", "Theorems for every device id, key, clock reading, reply script, reported state and request: update-only writes exactly "
+         "login, state query and the Spec's status frame of the merged values (requested, else reported; swing off for separate-swing "
+         "remotes); the IR call writes exactly login, state query and the frame of the IR code the C15 Spec chooses for the merged "
+         "values, plus a fourth frame with the Spec's swing code iff a separate-swing remote was asked for swing; swing-only writes "
+         "login and the swing frame; nothing actionable and an empty login reply raise RuntimeError after the login frame only. "
+         "Per run 1000+ (current state, request subset, remote kind, update flag, fault) cases against the real client.", "5 C16",
+         "replies that fail to parse or are empty after the login are covered by the per-run oracle and C09's theorems, not by the exactness theorems"),
  "C17": ("proof", "Theorem over all action sequences and port lists of the lifecycle model: running iff all ports held, nothing held when not "
          "running (also after a failed start), delivery iff held; per run every action sequence of length <= 3 on real UDP sockets with "
          "probe binds.", "5 C17", "partial: deferred socket release timing is asyncio's and only exercised"),
